@@ -138,6 +138,9 @@ def run(ctx):
     lean = vlib.lean_check(PKG, THEOREMS[prop], thorough=ctx.thorough, checker_modules=["Clock.Props"])
     failures = vlib.lean_failures(prop, lean)
     extra = []
+    _ob, _sf = vlib.skeleton_tie(prop, "clock")
+    extra.append(_ob)
+    failures += _sf
     ctx.log("lean:", "ok" if lean["ok"] else "NOT ok")
     binary, driver = _build(prop, failures, extra)
     if binary is None:
